@@ -5,13 +5,50 @@ open PS PS.G PS.Heapq
 set_option linter.unusedSectionVars false
 variable {S : Type} [DecidableEq S]
 
-set_option maxHeartbeats 1600000 in
+/-- the bank after the product loop: the bank before and the yielded program -/
+theorem emit_bank (E : Env S) (nt : NT S Unit) (ci : Nat) (P : Sym) (isFun : Bool) :
+    ∀ (pend : List (List Prog)) (s : St S) (nt' : NT S Unit) (ci' : Nat) (q : Prog),
+      q ∈ (emit E nt ci P isFun s pend).1.bankAt nt' ci' →
+      q ∈ s.bankAt nt' ci' ∨ ∃ rest, (emit E nt ci P isFun s pend).2 = some (q, rest) := by
+  intro pend
+  induction pend with
+  | nil => intro s nt' ci' q h; exact Or.inl h
+  | cons a rest ih =>
+    intro s nt' ci' q h
+    by_cases hd : s.deleted.contains (mkProg P isFun a) = true
+    · have e : emit E nt ci P isFun s (a :: rest) = emit E nt ci P isFun s rest := by
+        simp only [emit]; rw [if_pos hd]
+      rw [e] at h ⊢; exact ih s nt' ci' q h
+    · by_cases hf : (!E.filter (mkProg P isFun a)) = true
+      rotate_left
+      · have e : emit E nt ci P isFun s (a :: rest) =
+            (s.setBank nt ci (((AList.lookup ci (s.bankOf nt)).getD []) ++ [mkProg P isFun a]), some (mkProg P isFun a, rest)) := by
+          simp only [emit]; rw [if_neg hd, if_neg hf]
+        rw [e] at h ⊢
+        simp only at h ⊢
+        rw [St.bankAt_setBank] at h
+        split at h
+        · next hh =>
+          obtain ⟨rfl, rfl⟩ := hh
+          rcases List.mem_append.mp h with h' | h'
+          · exact Or.inl h'
+          · simp only [List.mem_singleton] at h'
+            exact Or.inr ⟨rest, by rw [h']⟩
+        · exact Or.inl h
+      · have e : emit E nt ci P isFun s (a :: rest) = emit E nt ci P isFun (s.addDeleted (mkProg P isFun a)) rest := by
+          simp only [emit]; rw [if_neg hd, if_pos hf]
+        rw [e] at h ⊢
+        rcases ih _ nt' ci' q h with h' | h'
+        · left; rw [St.addDeleted_bankAt] at h'; exact h'
+        · exact Or.inr h'
+
 theorem rk_step (E : Env S) (hpos : PosW E) (n : Nat) (ihR : RK E n) (ihA : AK E n) : RK E (n + 1) := by
   intro s nt fr r x hw h4 hfo hk hx h
   unfold resume at h
   obtain ⟨t1, t2⟩ := emit_tables E nt fr.ci fr.P fr.isFun fr.pending s
   obtain ⟨ce1, ce2, ce3⟩ := emit_cost E nt fr.ci fr.P fr.isFun fr.cost fr.pending s hw.c hk.fc.1 hk.fc.2
   obtain ⟨k1, k2, k3, k4, k5, k6⟩ := emit_k E nt fr fr.pending s hw.e hw.cr hk
+  have hbk := emit_bank E nt fr.ci fr.P fr.isFun fr.pending s
   have hlast0 := hk.fo.last
   have hnl : ¬ lastGe s nt x := by
     intro ⟨c0, a1, a2⟩
@@ -26,14 +63,24 @@ theorem rk_step (E : Env S) (hpos : PosW E) (n : Nat) (ihR : RK E n) (ihA : AK E
     rw [hem] at k6
     rw [e1] at t1 t2 ce1 k1 k2 k3 he4_1
     refine ⟨⟨ce1, hw.o.of_eq t1 t2, k1, k2⟩, he4_1, keep4_of_other x s s1 nt k3 hnl,
-      fun S' hS hl => (hfo S' hS hl).of_same (k3 S' hS) (Ext.of_eq t1), fun p' fr' hy => ?_, fun hr => (by cases hr)⟩
-    cases hy
-    exact k6
+      fun S' hS hl => (hfo S' hS hl).of_same (k3 S' hS) (Ext.of_eq t1), fun p' fr' hy => ?_, fun hr => (by cases hr), fun ci q hq => ?_⟩
+    · cases hy
+      exact k6
+    · rcases hbk nt ci q (by rw [e1]; exact hq) with h' | ⟨rest', h'⟩
+      · exact Or.inl h'
+      · rw [hem] at h'
+        simp only [Option.some.injEq, Prod.mk.injEq] at h'
+        exact Or.inr ⟨{ fr with hasGen := true, pending := rest }, by rw [h'.1]⟩
   · next s1 hem =>
     have e1 : (emit E nt fr.ci fr.P fr.isFun s fr.pending).1 = s1 := by rw [hem]
     rw [hem] at k6
     rw [e1] at t1 t2 ce1 ce2 k1 k2 k3 k4 k5 he4_1
     have k6 : FrK E s1 nt { fr with pending := [] } := k6
+    have hbk1 : ∀ ci q, q ∈ s1.bankAt nt ci → q ∈ s.bankAt nt ci := by
+      intro ci q hq
+      rcases hbk nt ci q (by rw [e1]; exact hq) with h' | ⟨rest', h'⟩
+      · exact h'
+      · rw [hem] at h'; cases h'
     have hw1 : WInv E s1 := ⟨ce1, hw.o.of_eq t1 t2, k1, k2⟩
     have hkeep1 : Keep4 x s s1 := keep4_of_other x s s1 nt k3 hnl
     have hFR1 : ∀ S', S' ≠ nt → ¬ lastGe s S' x → FR E s1 S' := fun S' hS hl => (hfo S' hS hl).of_same (k3 S' hS) (Ext.of_eq t1)
@@ -44,22 +91,24 @@ theorem rk_step (E : Env S) (hpos : PosW E) (n : Nat) (ihR : RK E n) (ihA : AK E
     have hepi : (∀ e q, s1.queueOf nt = e :: q → e.cost ≠ fr.cost) →
         WInv E (epilogue s1 nt fr) ∧ E4g (epilogue s1 nt fr) ∧ Keep4 x s (epilogue s1 nt fr) ∧
         (∀ S', S' ≠ nt → ¬ lastGe s S' x → FR E (epilogue s1 nt fr) S') ∧
-        (FR E (epilogue s1 nt fr) nt ∧ IdxDone E (epilogue s1 nt fr) nt fr.ci) := by
+        (FR E (epilogue s1 nt fr) nt ∧ IdxDone E (epilogue s1 nt fr) nt fr.ci ∧
+          ∀ ci', Entered (epilogue s1 nt fr) nt ci' → ci' ≤ fr.ci) ∧
+        (∀ ci q, q ∈ (epilogue s1 nt fr).bankAt nt ci → q ∈ s.bankAt nt ci) := by
       intro hne
-      obtain ⟨g1, g2, g3, g4, g5, g6⟩ := epilogue_k E s1 nt { fr with pending := [] } x hw1 he4_1 k6 rfl hx hne
+      obtain ⟨g1, g2, g3, g4, g5, g6, g7, g8⟩ := epilogue_k E s1 nt { fr with pending := [] } x hw1 he4_1 k6 rfl hx hne
       exact ⟨g1, g2, hkeep1.trans (keep4_of_other x s1 _ nt g3 hnl1),
-        fun S' hS hl => (hFR1 S' hS hl).of_same (g3 S' hS) g6, g4, g5⟩
+        fun S' hS hl => (hFR1 S' hS hl).of_same (g3 S' hS) g6, ⟨g4, g5, g7⟩, fun ci q hq => hbk1 ci q (by rw [← g8]; exact hq)⟩
     split at h
     · next hq0 =>
       cases h
-      obtain ⟨g1, g2, g3, g4, g5⟩ := hepi (fun e q hq => by rw [hq0] at hq; cases hq)
-      exact ⟨g1, g2, g3, g4, fun _ _ hy => (by cases hy), fun _ => g5⟩
+      obtain ⟨g1, g2, g3, g4, g5, g6⟩ := hepi (fun e q hq => by rw [hq0] at hq; cases hq)
+      exact ⟨g1, g2, g3, g4, fun _ _ hy => (by cases hy), fun _ => g5, fun ci q hq => Or.inl (g6 ci q hq)⟩
     · next e0 q0 hq0 =>
       split at h
       · next hcost =>
         cases h
-        obtain ⟨g1, g2, g3, g4, g5⟩ := hepi (fun e q hq => by rw [hq0] at hq; cases hq; simpa using hcost)
-        exact ⟨g1, g2, g3, g4, fun _ _ hy => (by cases hy), fun _ => g5⟩
+        obtain ⟨g1, g2, g3, g4, g5, g6⟩ := hepi (fun e q hq => by rw [hq0] at hq; cases hq; simpa using hcost)
+        exact ⟨g1, g2, g3, g4, fun _ _ hy => (by cases hy), fun _ => g5, fun ci q hq => Or.inl (g6 ci q hq)⟩
       · next hcost =>
         have hcost' : e0.cost = fr.cost := by
           by_cases hce : e0.cost = fr.cost
@@ -224,11 +273,13 @@ theorem rk_step (E : Env S) (hpos : PosW E) (n : Nat) (ihR : RK E n) (ihA : AK E
                   · cases g1
                 -- the recursive call
                 have hrec : ∀ (s5 : St S) (fr5 : Frame), WInv E s5 → E4g s5 → (∀ S', S' ≠ nt → Same4 s4 s5 S') →
-                    s5.clOf nt = s4.clOf nt → Ext s4 s5 → FrK E s5 nt fr5 → fr5.cost = fr.cost → fr5.ci = fr.ci →
+                    s5.clOf nt = s4.clOf nt → Ext s4 s5 → (∀ ci, s5.bankAt nt ci = s4.bankAt nt ci) → FrK E s5 nt fr5 → fr5.cost = fr.cost → fr5.ci = fr.ci →
                     resume E n s5 nt fr5 = some r →
                     WInv E r.1 ∧ E4g r.1 ∧ Keep4 x s r.1 ∧ (∀ S', S' ≠ nt → ¬ lastGe s S' x → FR E r.1 S') ∧
-                    (∀ p fr', r.2 = .yield p fr' → FrK E r.1 nt fr') ∧ (r.2 = .ret → FR E r.1 nt ∧ IdxDone E r.1 nt fr.ci) := by
-                  intro s5 fr5 hw5 he5 hsame45 hcl5 hx45 hk5 hcost5 hci5 hres
+                    (∀ p fr', r.2 = .yield p fr' → FrK E r.1 nt fr') ∧
+                    (r.2 = .ret → FR E r.1 nt ∧ IdxDone E r.1 nt fr.ci ∧ ∀ ci', Entered r.1 nt ci' → ci' ≤ fr.ci) ∧
+                    (∀ ci q, q ∈ r.1.bankAt nt ci → q ∈ s.bankAt nt ci ∨ ∃ fr', r.2 = .yield q fr') := by
+                  intro s5 fr5 hw5 he5 hsame45 hcl5 hx45 hba45 hk5 hcost5 hci5 hres
                   have hnl4 : ¬ lastGe s4 nt x := by
                     intro ⟨c0, a1, a2⟩
                     rw [hclnt4, hlast1] at a1; cases a1
@@ -237,17 +288,20 @@ theorem rk_step (E : Env S) (hpos : PosW E) (n : Nat) (ihR : RK E n) (ihA : AK E
                   have hFR5 : ∀ S', S' ≠ nt → ¬ lastGe s S' x → FR E s5 S' := fun S' hS hl =>
                     (hFR4 S' hS hl).of_same (hsame45 S' hS) hx45
                   have hfo5 : FRo E x s5 nt := frp_now E x (· ≠ nt) s s5 hFR5 hkeep5
-                  obtain ⟨q1, q2, q3, q4, q5, q6⟩ := ihR _ _ _ _ x hw5 he5 hfo5 hk5 (by rw [hcost5]; exact hx) hres
+                  obtain ⟨q1, q2, q3, q4, q5, q6, q7⟩ := ihR _ _ _ _ x hw5 he5 hfo5 hk5 (by rw [hcost5]; exact hx) hres
                   obtain ⟨_, ext5r, _⟩ := (cost_all E n).2.2.2.1 _ _ _ _ hw5.c hk5.fc hres
-                  exact ⟨q1, q2, hkeep5.trans q3, frp_trans E x (· ≠ nt) s s5 r.1 hFR5 q4 q3 ext5r, q5,
-                    fun hr => by rw [← hci5]; exact q6 hr⟩
+                  refine ⟨q1, q2, hkeep5.trans q3, frp_trans E x (· ≠ nt) s s5 r.1 hFR5 q4 q3 ext5r, q5,
+                    fun hr => (by rw [← hci5]; exact q6 hr), fun ci q hq => ?_⟩
+                  rcases q7 ci q hq with h' | h'
+                  · left; apply hbk1; rw [← hba4, ← hba45]; exact h'
+                  · exact Or.inr h'
                 have hfo4 : ∀ fr' : Frame, fr'.ci = fr.ci → fr'.cost = fr.cost → FrO s4 nt fr' := by
                   intro fr' h1 h2
                   exact ⟨by rw [h1, hclnt4]; exact hfo1.1, by rw [h1, h2, hclnt4]; exact hfo1.2⟩
                 split at h
                 · next hae =>
                   -- an argument is allowed to be empty: no program of this combination
-                  refine hrec s4 { fr with noSucc := fr.noSucc && (af && !ae), pending := [] } hw4 he4_4 (fun S' _ => Same4.refl s4 S') rfl (Ext.refl _) ?_ rfl rfl h
+                  refine hrec s4 { fr with noSucc := fr.noSucc && (af && !ae), pending := [] } hw4 he4_4 (fun S' _ => Same4.refl s4 S') rfl (Ext.refl _) (fun _ => rfl) ?_ rfl rfl h
                   refine ⟨hfo4 _ rfl rfl, ⟨hx14.get _ _ _ hfc1.1, fun a ha => (by cases ha)⟩, k6.fin,
                     fun hh => (by rw [hba4]; exact k6.hg hh), fun hh => (by rw [hba4]; exact k6.hg2 hh),
                     fun _ => (by simp [hfailed]), (by rw [hemp4]; exact k6.ne),
@@ -276,9 +330,11 @@ theorem rk_step (E : Env S) (hpos : PosW E) (n : Nat) (ihR : RK E n) (ihA : AK E
                       s5.queueOf nt = s4.queueOf nt →
                       resume E n s5 nt { fr with noSucc := fr.noSucc && (af && !ae), P := el.P, isFun := !(rl0.1.map ntOf).isEmpty, pending := product poss } = some r →
                       WInv E r.1 ∧ E4g r.1 ∧ Keep4 x s r.1 ∧ (∀ S', S' ≠ nt → ¬ lastGe s S' x → FR E r.1 S') ∧
-                      (∀ p fr', r.2 = .yield p fr' → FrK E r.1 nt fr') ∧ (r.2 = .ret → FR E r.1 nt ∧ IdxDone E r.1 nt fr.ci) := by
+                      (∀ p fr', r.2 = .yield p fr' → FrK E r.1 nt fr') ∧
+                    (r.2 = .ret → FR E r.1 nt ∧ IdxDone E r.1 nt fr.ci ∧ ∀ ci', Entered r.1 nt ci' → ci' ≤ fr.ci) ∧
+                    (∀ ci q, q ∈ r.1.bankAt nt ci → q ∈ s.bankAt nt ci ∨ ∃ fr', r.2 = .yield q fr') := by
                     intro s5 hw5 he5 hsame45 hcl5 hx45 hba5 hemp5 hsome5 hlk5 hq5 hres
-                    refine hrec s5 { fr with noSucc := fr.noSucc && (af && !ae), P := el.P, isFun := !(rl0.1.map ntOf).isEmpty, pending := product poss } hw5 he5 hsame45 hcl5 hx45 ?_ rfl rfl hres
+                    refine hrec s5 { fr with noSucc := fr.noSucc && (af && !ae), P := el.P, isFun := !(rl0.1.map ntOf).isEmpty, pending := product poss } hw5 he5 hsame45 hcl5 hx45 hba5 ?_ rfl rfl hres
                     refine ⟨⟨by rw [hcl5, hclnt4]; exact hfo1.1, by rw [hcl5, hclnt4]; exact hfo1.2⟩, ⟨(hx14.trans hx45).get _ _ _ hfc1.1, fun a ha => ?_⟩,
                       k6.fin, fun hh => (by rw [hba5, hba4]; exact k6.hg hh), fun hh => (by rw [hba5, hba4]; exact k6.hg2 hh),
                       fun _ => (by simp [hfailed]), (by rw [hemp5, hemp4]; exact k6.ne),
@@ -353,7 +409,7 @@ theorem rk_step (E : Env S) (hpos : PosW E) (n : Nat) (ihR : RK E n) (ihA : AK E
                         · obtain ⟨rl, w', k', g1, g2, g3, g4⟩ := hw4.c.queue nt' x' hm
                           exact ⟨rl, w', k', g1, g2, by rw [combCost_setBank]; exact g3, g4⟩
                         · rw [hba5] at hp; exact hw4.c.bank nt' ci p hp
-                      · refine ⟨fun S' ci hh => ?_, hw4.e.d1, fun S' ci hh => ?_, hw4.e.ini, hw4.e.lb⟩
+                      · refine ⟨fun S' ci hh => ?_, hw4.e.d1, fun S' ci hh => ?_, hw4.e.lb⟩
                         · rw [hba5]; exact hw4.e.e2 S' ci hh
                         · by_cases hh' : S' = nt ∧ ci = fr.ci
                           · obtain ⟨rfl, rfl⟩ := hh'
